@@ -31,7 +31,7 @@ import re
 
 from .astutil import norm, walk_no_nested
 from .errors import AnalysisError
-from .minieval import Evaluator
+from .minieval import Evaluator, Returned
 
 
 class ModelFault(Exception):
@@ -106,9 +106,12 @@ UNASSIGNED = _Unassigned()
 
 
 class TypeVal:
-    """a Bits type (nbits int) or the opaque message type (nbits == 'data')"""
+    """a Bits type (nbits int) or the opaque message type (nbits == 'data').  mk_bits returns one class per width, so
+    types compare (and hash) by width"""
     def __init__(self, nbits): self.nbits = nbits
     def __repr__(self): return f"Type({self.nbits})"
+    def __eq__(self, o): return isinstance(o, TypeVal) and o.nbits == self.nbits
+    def __hash__(self): return hash(('TypeVal', self.nbits))
 
 
 def fit(value, nbits, what=''):
@@ -169,6 +172,11 @@ class ClassRef:
 
 class SigCtor:
     def __init__(self, kind): self.kind = kind
+
+
+class FuncRef:
+    """a module-level helper function of the repository, interpreted when construct calls it"""
+    def __init__(self, mod, node): self.mod, self.node = mod, node
 
 
 class LambdaRef:
@@ -371,6 +379,10 @@ class _CEval(Evaluator):
         r = self.elab.repo.resolve(c.mod, n)
         if r is not None and isinstance(r[1], ast.ClassDef):
             return ClassRef(r[0], r[1])
+        if r is not None and isinstance(r[1], ast.FunctionDef) and r[1] in r[0].tree.body:
+            return FuncRef(r[0], r[1])
+        if r is not None and isinstance(r[1], ast.expr):
+            return self.elab.global_value(r[0], n, r[1])
         if r is None and n.endswith('Ifc'):
             # an interface class the repository does not define / export (valrdy_queues.py): ports on demand
             self.nl.notes.append(f"{c.mod.rel}: interface class {n} cannot be resolved inside the repository "
@@ -386,10 +398,20 @@ class _CEval(Evaluator):
             return get_attr(self.nl, b, e.attr, f"(in {self.ctx.inst.clsname}.construct)")
         raise AnalysisError(f"attribute outside the construct model: {norm(e)}")
 
+    def ev_Dict(self, e):
+        if any(k is None for k in e.keys):
+            raise AnalysisError(f"dict display outside the construct model: {norm(e)}")
+        return {self.ev(k): self.ev(v) for k, v in zip(e.keys, e.values)}
+
     def ev_Subscript(self, e):
         b = self.ev(e.value)
         i = self.ev(e.slice)
-        if isinstance(b, list) and isinstance(i, int) and not isinstance(i, bool):
+        if isinstance(b, dict):
+            try:
+                return b[i]
+            except (KeyError, TypeError):
+                raise ModelFault(f"key {i!r} not found in `{norm(e.value)}` ({norm(e)})")
+        if isinstance(b, (list, tuple)) and isinstance(i, int) and not isinstance(i, bool):
             if not -len(b) <= i < len(b):
                 raise ModelFault(f"index {i} out of range in {norm(e)}")
             return b[i]
@@ -454,6 +476,8 @@ class _CEval(Evaluator):
             return cast(fn, args, kwargs, norm(e))
         if isinstance(fn, ClassRef):
             return self.elab.instantiate(self.nl, fn, args, kwargs)
+        if isinstance(fn, FuncRef):
+            return self.elab.call_function(self.nl, fn, args, kwargs)
         if isinstance(fn, Builtin):
             if fn.name == 'connect':
                 if len(args) != 2 or kwargs:
@@ -509,8 +533,16 @@ class Elaborator:
     def __init__(self, repo):
         self.repo = repo
         self._kinds = {}
+        self.globals = {}        # (module rel, name) -> module-level mutable object, persists while keep_state
+        self.touched = set()     # module-level mutable objects read / written during the last build
+        self._depth = 0
 
-    def build(self, rel, clsname, *args, **kwargs):
+    def build(self, rel, clsname, *args, keep_state=False, **kwargs):
+        """keep_state: module-level mutable state written by helper functions survives from the previous builds
+        (construction history); by default every build starts from the initial module state"""
+        if not keep_state:
+            self.globals = {}
+        self.touched = set()
         mod = self.repo.mod(rel)
         cls = mod.get_class(clsname)
         nl = Netlist()
@@ -518,6 +550,113 @@ class Elaborator:
         self._static_writes(nl)
         nl.finalize()
         return nl
+
+    # -- module-level state and helper functions
+    def global_value(self, mod, name, expr):
+        key = (mod.rel, name)
+        if key in self.globals:
+            self.touched.add(key)
+            return self.globals[key]
+        if isinstance(expr, (ast.Dict, ast.List, ast.Set)) or \
+                (isinstance(expr, ast.Call) and norm(expr.func) in ('dict', 'list', 'set') and not expr.args and not expr.keywords):
+            try:
+                v = ast.literal_eval(expr) if not isinstance(expr, ast.Call) else {'dict': dict, 'list': list, 'set': set}[norm(expr.func)]()
+            except Exception:
+                raise AnalysisError(f"module-level initialiser outside the model: {name} = {norm(expr)} in {mod.rel}")
+            self.globals[key] = v
+            self.touched.add(key)
+            return v
+        try:
+            v = ast.literal_eval(expr)
+        except Exception:
+            raise AnalysisError(f"module-level name outside the construct model: {name} = {norm(expr)[:60]} in {mod.rel}")
+        if isinstance(v, (int, str, bool, type(None), tuple)):
+            return v
+        raise AnalysisError(f"module-level name outside the construct model: {name} in {mod.rel}")
+
+    def call_function(self, nl, fref, args, kwargs):
+        """interpret a module-level helper function called from construct (assignments, if, return; module-level
+        containers are read / written in place)"""
+        fn = fref.node
+        if fn.decorator_list or self._depth > 8:
+            raise AnalysisError(f"helper function {fn.name} in {fref.mod.rel} is outside the model")
+        a = fn.args
+        if a.vararg or a.kwarg or a.posonlyargs:
+            raise AnalysisError(f"signature of helper {fn.name} outside the model")
+        env = {}
+        ctx = Ctx(None, None, env, fref.mod, None)
+        ev = _CEval(self, nl, ctx)
+        params = [p.arg for p in a.args]
+        if len(args) > len(params):
+            raise ModelFault(f"{fn.name} takes {len(params)} positional arguments, {len(args)} given")
+        defaults = dict(zip(params[len(params) - len(a.defaults):], a.defaults)) if a.defaults else {}
+        kw = dict(kwargs)
+        for p, v in zip(params, args):
+            env[p] = v
+        for p in params[len(args):]:
+            if p in kw:
+                env[p] = kw.pop(p)
+            elif p in defaults:
+                env[p] = ev.ev(defaults[p])
+            else:
+                raise ModelFault(f"{fn.name}: parameter {p} not supplied")
+        for p, d in zip(a.kwonlyargs, a.kw_defaults):
+            if p.arg in kw:
+                env[p.arg] = kw.pop(p.arg)
+            elif d is not None:
+                env[p.arg] = ev.ev(d)
+            else:
+                raise ModelFault(f"{fn.name}: keyword parameter {p.arg} not supplied")
+        if kw:
+            raise ModelFault(f"{fn.name}: unexpected keyword arguments {sorted(kw)}")
+        self._depth += 1
+        try:
+            self._fbody(ev, fn, fn.body)
+        except Returned as r:
+            return r.value
+        finally:
+            self._depth -= 1
+        return None
+
+    def _fbody(self, ev, fn, stmts):
+        for st in stmts:
+            if isinstance(st, ast.Expr) and isinstance(st.value, ast.Constant) or isinstance(st, ast.Pass):
+                continue
+            if isinstance(st, ast.Return):
+                raise Returned(None if st.value is None else ev.ev(st.value))
+            if isinstance(st, ast.If):
+                self._fbody(ev, fn, st.body if ev.ev(st.test) else st.orelse)
+                continue
+            if isinstance(st, ast.Assert):
+                if not ev.ev(st.test):
+                    raise ModelFault(f"{fn.name}: assertion `{norm(st.test)}` fails")
+                continue
+            if isinstance(st, ast.Assign):
+                val = ev.ev(st.value)
+                for t in st.targets:
+                    self._fassign(ev, fn, t, val)
+                continue
+            raise AnalysisError(f"helper {fn.name}: statement outside the model: {norm(st)[:80]}")
+
+    def _fassign(self, ev, fn, t, val):
+        if isinstance(t, ast.Name):
+            ev.ctx.env[t.id] = val
+        elif isinstance(t, (ast.Tuple, ast.List)):
+            vals = list(val) if isinstance(val, (tuple, list)) else None
+            if vals is None or len(vals) != len(t.elts):
+                raise ModelFault(f"{fn.name}: cannot unpack {val!r} into {norm(t)}")
+            for te, v in zip(t.elts, vals):
+                self._fassign(ev, fn, te, v)
+        elif isinstance(t, ast.Subscript):
+            base = ev.ev(t.value)
+            if not isinstance(base, (dict, list)):
+                raise AnalysisError(f"helper {fn.name}: assignment target outside the model: {norm(t)}")
+            try:
+                base[ev.ev(t.slice)] = val
+            except (TypeError, IndexError) as ex:
+                raise ModelFault(f"{fn.name}: {norm(t)}: {ex}")
+        else:
+            raise AnalysisError(f"helper {fn.name}: assignment target outside the model: {norm(t)}")
 
     def kind_of(self, mod, cls):
         key = (mod.rel, cls.name)
@@ -638,6 +777,12 @@ class Elaborator:
                 raise AnalysisError(f"assignment target outside the model: {norm(target)}")
             self._adopt(base, target.attr, val)
             base.attrs[target.attr] = val
+            return
+        if isinstance(target, (ast.Tuple, ast.List)):
+            if not isinstance(val, (tuple, list)) or len(val) != len(target.elts):
+                raise ModelFault(f"{ctx.inst.clsname}.construct: cannot unpack {val!r} into {norm(target)}")
+            for te, v in zip(target.elts, val):
+                self._assign(nl, ev, te, v)
             return
         raise AnalysisError(f"assignment target outside the model: {norm(target)}")
 
@@ -1044,3 +1189,27 @@ class Sim:
             nxt.update(self.pending)
             self.pending = None
         return nxt
+
+
+def signature(nl):
+    """structural signature of an elaborated design: constants, signal types, block counts (keyed by hierarchical
+    path) -- two elaborations of the same class with the same parameters must agree on it"""
+    out = {}
+
+    def walk(inst):
+        for k, v in sorted(inst.attrs.items()):
+            path = f"{inst.path}.{k}"
+            if isinstance(v, Inst):
+                out[path] = f"<{v.clsname}>"
+                walk(v)
+            elif isinstance(v, Sig):
+                out[path] = f"{v.kind}:{v.nbits}"
+            elif isinstance(v, list):
+                out[path] = '[' + ','.join(f"{x.kind}:{x.nbits}" if isinstance(x, Sig) else repr(x) for x in v) + ']'
+            elif isinstance(v, BV):
+                out[path] = f"Bits{v.n}({v.v})"
+            elif isinstance(v, (int, str, bool, type(None), Tok, TypeVal, tuple)):
+                out[path] = repr(v)
+    walk(nl.top)
+    out['<blocks>'] = str(sorted((b.kind, b.name) for b in nl.blocks))
+    return out
